@@ -131,7 +131,27 @@ def cel_lit(v) -> str:
 
 
 def _dotted(root, path):
-    return ".".join([root] + list(path))
+    out = root
+    for seg in path:
+        out += ("." + seg) if re.fullmatch(r"[A-Za-z_][A-Za-z0-9_]*", seg) else f"[{json.dumps(seg)}]"
+    return out
+
+
+_IDENT = re.compile(r"[A-Za-z_][A-Za-z0-9_]*\Z")
+
+
+def steps_ref(label, path) -> str:
+    """`steps.<label>…` where the label is an identifier (and then only sometimes), else `steps['label']…` /
+    `steps["label"]…`: CRD labels are ^\\w+$, so they may start with a digit, be all digits or only underscores"""
+    import zlib
+    pick = zlib.crc32(repr((label, list(path))).encode()) % 4
+    if _IDENT.match(label) and pick < 2:
+        head = "steps." + label
+    elif pick % 2 == 0:
+        head = f"steps['{label}']"
+    else:
+        head = f'steps["{label}"]'
+    return _dotted(head, path)
 
 
 def cel_src(e) -> str:
@@ -139,7 +159,7 @@ def cel_src(e) -> str:
     if k == "C":
         return cel_lit(e[1])
     if k == "S":
-        return _dotted("steps." + e[1], e[2])
+        return steps_ref(e[1], e[2])
     if k == "P":
         return _dotted("parent", e[1])
     if k == "I":
@@ -159,7 +179,7 @@ def cel_src(e) -> str:
         return {"mac": f"[0].map(i, {inner})[0]", "idx": f"[{inner}][0]", "fld": '{"k": ' + inner + "}.k",
                 "fl": f"flatten([[{inner}]])[0]", "macf": f"[{inner}].filter(i, true)[0]"}[e[1]]
     if k == "H":
-        ref = _dotted("steps." + e[1], e[2])
+        ref = steps_ref(e[1], e[2])
         return f"[0].map(i, has({ref}) ? {ref} : {cel_src(e[3])})[0]"
     if k == "F":
         return f"flatten({cel_src(e[1])})"
@@ -994,6 +1014,13 @@ class Gen:
     def sim(self):
         return simulate(self.sc, self.steps, self.parent)["outcomes"]
 
+    def make_label(self, idx):
+        """labels over the whole CRD-legal alphabet (^\\w+$, 3..45 characters)"""
+        style = self.rng.choice(["id", "id", "id", "id", "digit", "alldigit", "under", "long", "mixed"])
+        p = self.prefix
+        return {"id": f"{p}{idx:02d}", "digit": f"{idx}fa_{p}", "alldigit": f"{idx:03d}", "under": "_" * (3 + idx),
+                "long": (f"L{idx:02d}_{p}_" + "x" * 45)[:45], "mixed": f"St_{idx}A{p}"}[style]
+
     def ref_expr(self, done, want=None):
         """an expression reading an earlier step or the parent; want: None | 'bool' | 'list' | 'str'"""
         rng = self.rng
@@ -1031,7 +1058,7 @@ class Gen:
         r = rng.random()
         if r < 0.22:
             return ["W", rng.choice(["mac", "idx", "fld", "fl", "macf"]), e]
-        if r < 0.30 and e[0] == "S":
+        if r < 0.30 and e[0] == "S" and e[2]:
             return ["H", e[1], e[2], C(rng.choice(["dflt", 0, None]))]
         if r < 0.36 and isinstance(v, list) and v and all(isinstance(x, list) for x in v):
             return ["F", e]
@@ -1071,7 +1098,7 @@ class Gen:
         rng, sc = self.rng, self.sc
         done = self.sim()
         idx = len(self.steps)
-        label = f"{self.prefix}{idx:02d}"
+        label = self.make_label(idx)
         step = {"label": label, "inputs": None, "skip": None, "foreach": None, "logic": None, "cond": None, "state": None}
         inputs = []
         used = set()
@@ -1159,6 +1186,10 @@ class Gen:
                     src = ["E"]
                 step["foreach"] = [src, fe_key]
                 used.add(fe_key)
+                if rng.random() < 0.3:
+                    # the step's own inputs also define the key named by inputKey: every iteration still gets its item
+                    shadow = self.ref_expr(done) if rng.random() < 0.4 else None
+                    inputs.append([fe_key, shadow or C(rng.choice(["static", "ok", 0, f"obj-{label}-static"]))])
         # ---- inputs the Logic needs
         if "bycls" in tnames and fe_key != "cls":
             words = ["ok"] * 8 + ["skip", "depskip"] + (CLS_WORDS if rng.random() < self.err else [])
